@@ -729,7 +729,7 @@ def r6_equation_rewrite(R) -> None:
         same = bool(init) and all(f.etext(d.node.id, d.value) == f.etext(lp.id, scanned) for d in init)
         R.check(same, BFD, 'rewrite-same-text', 'match offsets refer to the text being rewritten', f'`{c}` does not start as the scanned text `{text(scanned)}`', where=f.where(lp))
     if len(terms) == 3:
-        rep_ = f.expand(sn.id, terms[1], stop=(m,))
+        rep_ = f.dict_lookup_read(sn.id, f.expand(sn.id, terms[1], stop=(m,)))
         parts = [(k, grp(t_) if k == 'sym' else t_) for (k, t_) in shape(rep_)]
         nums = {x.id for x in ast.walk(f.fi.node) if isinstance(x, ast.Name)}
         want_idx = f"{m}[2].replace('t', 'index')"
